@@ -388,6 +388,23 @@ def run_for_property(prop: str, root: Optional[str] = None, max_mutants: int = 1
                 continue
             seeds_total += 1
             jobs.append((prop, root, ov, f"seed:{name}"))
+    # committed behaviour-preserving variants (sub-agent refactorings, corrected seeded refactorings) that touch
+    # a file this property's rules look at: never a violation
+    ben_dir = os.path.join(VERIF, "seeded_benign")
+    if os.path.isdir(ben_dir):
+        mine = set(by_file)
+        for name in sorted(os.listdir(ben_dir)):
+            pth = os.path.join(ben_dir, name, "patch.diff")
+            if not os.path.exists(pth):
+                continue
+            txt = open(pth).read()
+            touched = set(re.findall(r"^\+\+\+ b/(\S+)", txt, re.M))
+            if not any(any(f.endswith(t) for f in mine) for t in touched):
+                continue
+            ov = apply_patch(sources, txt)
+            if ov is None:
+                continue
+            jobs.append((prop, root, ov, f"twin:refactoring {name}"))
     # twins and mutants
     mutants: List[Tuple[str, str, ast.Module]] = []
     ntw = 0
